@@ -52,7 +52,8 @@ PROPS = {
              "compression round trip for every algorithm x mode x level (gzip/zlib 0-9+presets, zstd 10 levels+presets, lz4, brotli generic/text/font 0-11+presets) x 7 payload classes (empty, tiny, incompressible, repetitive, text, periodic, 64k random; thorough adds 1 MiB); "
              "distinct = distinct case lines; the compression cases are TESTING of the hypothesis Compressor.Lossless, not proof",
         trusted_base=COMMON_TRUST + [
-            "flate2, zstd, brotli, lz4_flex invert themselves (hypothesis Compressor.Lossless; tested per algorithm/mode/level/payload class, not proved)",
+            "flate2, zstd, brotli, lz4_flex invert themselves (hypothesis Compressor.Lossless; tested per algorithm/mode/level/payload class, not proved); for DEFLATE the hypothesis is reduced to flate2's per-format inverse (structure Flate) by c14_deflate_lossless_partial over the library match arms extracted into Gen/Compression.lean",
+            "translator extraction of standard/src/compression/*: which encoder/decoder type each library arm names, that encoders are finished/flushed before their bytes are taken, that decoders read to the end (token-level, Gen/Compression.lean)",
             "bincode/serde layout as modelled in Wire/Bincode.lean; core::str::from_utf8 as modelled in Wire/Utf8.lean (both corresponded on every run)",
         ],
         assumptions=[
